@@ -14,6 +14,11 @@
 //!                                        Debug takes a few microseconds, one of them longer); a JSON record emitted inside the
 //!                                        span afterwards must show every one of those fields (and the one given at creation).
 //!
+//!   reloadbusy <rounds>                  a counting layer behind a reload handle; every round and for each kind of notification
+//!                                        (new span, record, event, enter, exit, close) one thread is INSIDE Handle::modify
+//!                                        (holding the handle's write lock for a few hundred microseconds) when another makes
+//!                                        the call.  Every notification must reach the layer exactly once (the call waits).
+//!
 //! Output: `ok <stats>` or `fail <what>`.
 use std::collections::HashMap;
 use std::sync::atomic::{AtomicBool, AtomicUsize, Ordering};
@@ -342,6 +347,83 @@ fn recordshared(threads: usize, rounds: usize) -> String {
     }
 }
 
+struct CountL(Arc<Vec<AtomicUsize>>);
+impl<C: Collect + for<'a> LookupSpan<'a>> Subscribe<C> for CountL {
+    fn on_new_span(&self, _: &span::Attributes<'_>, _: &span::Id, _: Context<'_, C>) { self.0[0].fetch_add(1, Ordering::SeqCst); }
+    fn on_record(&self, _: &span::Id, _: &span::Record<'_>, _: Context<'_, C>) { self.0[1].fetch_add(1, Ordering::SeqCst); }
+    fn on_event(&self, _: &Event<'_>, _: Context<'_, C>) { self.0[2].fetch_add(1, Ordering::SeqCst); }
+    fn on_enter(&self, _: &span::Id, _: Context<'_, C>) { self.0[3].fetch_add(1, Ordering::SeqCst); }
+    fn on_exit(&self, _: &span::Id, _: Context<'_, C>) { self.0[4].fetch_add(1, Ordering::SeqCst); }
+    fn on_close(&self, _: span::Id, _: Context<'_, C>) { self.0[5].fetch_add(1, Ordering::SeqCst); }
+}
+
+fn reloadbusy(rounds: usize) -> String {
+    const KINDS: [&str; 6] = ["new_span", "record", "event", "enter", "exit", "close"];
+    let c: Arc<Vec<AtomicUsize>> = Arc::new((0..6).map(|_| AtomicUsize::new(0)).collect());
+    let (layer, handle) = tracing_subscriber::reload::Subscriber::new(CountL(c.clone()));
+    let d = Dispatch::new(Registry::default().with(layer));
+    let mut want = [0usize; 6];
+    let mut panicked = 0usize;
+    for r in 0..rounds {
+        for kind in 0..6 {
+            let span = tracing_core::dispatch::with_default(&d, || tracing::info_span!(parent: None, "busy", f0 = tracing::field::Empty));
+            want[0] += 1;
+            let id = span.id().expect("enabled");
+            let inside = Arc::new(AtomicBool::new(false));
+            let ready = Arc::new(AtomicBool::new(false));
+            let a = {
+                let inside = inside.clone();
+                let ready = ready.clone();
+                let handle = handle.clone();
+                std::thread::spawn(move || {
+                    while !ready.load(Ordering::SeqCst) { std::hint::spin_loop(); }
+                    let _ = handle.modify(|_| {
+                        inside.store(true, Ordering::SeqCst);
+                        std::thread::sleep(std::time::Duration::from_micros(300 + 200 * (r % 4) as u64));
+                    });
+                })
+            };
+            let b = {
+                let inside = inside.clone();
+                let ready = ready.clone();
+                let d = d.clone();
+                std::thread::spawn(move || {
+                    tracing_core::dispatch::with_default(&d, || {
+                        // (a span is entered and exited on ONE thread: the registry's stack of entered spans is per thread)
+                        if kind == 4 { d.enter(&id); }
+                        ready.store(true, Ordering::SeqCst);
+                        while !inside.load(Ordering::SeqCst) { std::hint::spin_loop(); }
+                        match kind {
+                            0 => { drop(tracing::info_span!(parent: None, "second")); Some(span) }
+                            1 => { span.record("f0", 1); Some(span) }
+                            2 => { emit(); Some(span) }
+                            3 => { d.enter(&id); d.exit(&id); Some(span) }
+                            4 => { d.exit(&id); Some(span) }
+                            _ => { drop(span); None }
+                        }
+                    })
+                })
+            };
+            match kind { 0 => { want[0] += 1; want[5] += 1 } 1 => want[1] += 1, 2 => want[2] += 1, 3 | 4 => { want[3] += 1; want[4] += 1 } _ => want[5] += 1 }
+            if a.join().is_err() { panicked += 1; }
+            match b.join() {
+                Ok(Some(span)) => {
+                    drop(span); want[5] += 1;
+                }
+                Ok(None) => {}
+                Err(_) => panicked += 1,
+            }
+        }
+    }
+    let got: Vec<usize> = c.iter().map(|x| x.load(Ordering::SeqCst)).collect();
+    let bad: Vec<String> = (0..6).filter(|k| got[*k] != want[*k]).map(|k| format!("{}:got{}want{}", KINDS[k], got[k], want[k])).collect();
+    if bad.is_empty() && panicked == 0 {
+        format!("ok calls={}", want.iter().sum::<usize>())
+    } else {
+        format!("fail a-notification-made-while-a-reload-was-in-progress-did-not-reach-the-reloadable-layer-exactly-once {} panicked={}", bad.join(","), panicked)
+    }
+}
+
 fn main() {
     std::panic::set_hook(Box::new(|_| {}));
     tv_harness::serve(|t| {
@@ -351,6 +433,7 @@ fn main() {
             "closeonce" => closeonce(n(1).max(2), n(2), n(3)),
             "cloneshared" => cloneshared(n(1).max(2), n(2), n(3)),
             "recordshared" => recordshared(n(1).max(2), n(2)),
+            "reloadbusy" => reloadbusy(n(1)),
             _ => "bad-op".to_string(),
         }
     });
